@@ -19,7 +19,7 @@ def run(ctx):
     ctx.traces_validated = ctx.evaluations
     ctx.exhaustive = True
     ctx.rule = ("all attribute combinations (960 x 4), all strings <= %d tokens per string field, key x value pairs, "
-                "all single request SetCookie(key, value) with key/value < %d tokens, all 2-3 call sequences over a 10-op menu; "
+                "all single request SetCookie(key, value) with key/value <= min(%d-1, 2) tokens, all 2-3 call sequences over a 10-op menu; "
                 "non-trivial = a string outside cookie-octets or an attribute set (resp), non-octets or >= 2 calls (req)" % (n, n))
     ctx.assumptions = ["token alphabet {; = \" CR LF SP , \\ a b secure}", "string length bound %d tokens" % n,
                        "paths start with '/', no dot segments or escapes"]
